@@ -50,7 +50,7 @@ def specLib : Lib where
   permutations := SeqSpec.permutations
   join := SeqSpec.join
   split := SeqSpec.split
-  words := SeqSpec.words Char.isWhitespace
+  words := SeqSpec.words isWs
   lines := SeqSpec.lines '\n'
   uncons xs := match xs.head? with | some h => some (h, xs.tail) | none => none
   unsnoc xs := match xs.getLast? with | some e => some (xs.dropLast, e) | none => none
